@@ -40,7 +40,8 @@ def run(ctx):
     cases.append(mk(k=2, ivf=4, ivl=16, al=0, pl=48))
     cases.append(mk(k=2, af=1, al=16, pf=1, pl=32))
     cases.append(mk(k=3, af=2, al=17, pf=2, pl=31))
-    for pl in ([255, 256, 257, 1024] if thorough else [257]):
+    # long messages (the counter runs through hundreds of blocks): one beyond 4 KiB in the quick tier
+    for pl in ([255, 256, 257, 1024, 4096, 4097, 8200, 16385, 65536] if thorough else [257, 4097]):
         cases.append(mk(al=13, pl=pl))
     seen, uniq = set(), []
     for c in cases:
